@@ -28,6 +28,7 @@ import (
 	"log/slog"
 	"os"
 	"runtime"
+	"runtime/pprof"
 	"strings"
 	"sync"
 
@@ -211,7 +212,7 @@ func (c *checker) diff(h wm.History, ref, vr wm.Result) {
 	}
 }
 
-func (c *checker) runHistory(i int) {
+func (c *checker) runHistory(i int, pool *wm.Pool) {
 	r := c.r
 	transport := []string{"pipe", "http", "pipe", "http", "unix", "http", "pipe", "http-net"}[i%8]
 	if only := os.Getenv("C37_ONLY"); only != "" { // development aid
@@ -221,11 +222,11 @@ func (c *checker) runHistory(i int) {
 	if i < 2 {
 		r.Sample(h)
 	}
-	c.runGiven(h)
+	c.runGiven(h, pool)
 }
 
 // runGiven runs one history twice (reference / variant) and judges it.
-func (c *checker) runGiven(h wm.History) {
+func (c *checker) runGiven(h wm.History, pool *wm.Pool) {
 	r := c.r
 	transport := h.Transport
 	run := func(name string, strip bool) (wm.Result, *wm.Env, bool) {
@@ -236,7 +237,7 @@ func (c *checker) runGiven(h wm.History) {
 				hh.Calls[k].Modes = nil
 			}
 		}
-		env, err := wm.NewEnv(transport, h.Cfg, nil)
+		env, err := pool.NewEnv(transport, h.Cfg, nil)
 		if err != nil {
 			r.Inconclusive("environment: " + err.Error())
 			return wm.Result{}, nil, false
@@ -286,7 +287,7 @@ func main() {
 		}
 		r.Require("replayed-history")
 		r.Class("replayed-history")
-		c.runGiven(doc.Witness.History)
+		c.runGiven(doc.Witness.History, nil)
 		return
 	}
 	req := []string{"transport.pipe", "transport.unix", "transport.http", "transport.http-net",
@@ -311,6 +312,11 @@ func main() {
 	r.Require(req...)
 
 	n := r.N(300, 12000)
+	if pf := os.Getenv("C37_CPUPROFILE"); pf != "" { // development aid
+		f, _ := os.Create(pf)
+		_ = pprof.StartCPUProfile(f)
+		defer pprof.StopCPUProfile()
+	}
 	workers := 4
 	if r.Thorough() {
 		workers = min(16, runtime.NumCPU())
@@ -320,11 +326,13 @@ func main() {
 		wg.Add(1)
 		go func(w int) {
 			defer wg.Done()
+			pool := wm.NewPool()
+			defer pool.Close()
 			for i := w; i < n; i += workers {
 				if r.Violated() && i > 80*workers {
 					return
 				}
-				c.runHistory(i)
+				c.runHistory(i, pool)
 			}
 		}(w)
 	}
